@@ -1,4 +1,5 @@
 import LC.Props.C19
+import LC.Props.C19Locks
 #print axioms LC.V1Glue.results_schedule_independent
 #print axioms LC.V1Glue.header_filter
 #print axioms LC.V1Glue.exit_iff
@@ -7,3 +8,6 @@ import LC.Props.C19
 #print axioms LC.Pool.defer_order_current
 #print axioms LC.Pool.no_send_after_close
 #print axioms LC.Pool.old_order_can_panic
+#print axioms LC.RW.results_skeletons_present
+#print axioms LC.RW.results_skeletons_accepted
+#print axioms LC.RW.results_append_exclusive
